@@ -27,7 +27,7 @@ def variant(sc, rng):
         a = {"meta": "m", "dim": "d"}[j["name"]]
         for pr in j["on"]:
             c = pr[0]
-            sc["sql"] = sc["sql"].replace(" %s = %s.%s" % (c, a, c), " s.dev.%s = %s.%s" % (c, a, c))
+            sc["sql"] = sc["sql"].replace(" %s = %s.%s" % (c, a, c), " s.dev.%s = %s.%s" % (c, a, c)).replace(" %s.%s = %s" % (a, c, c), " %s.%s = s.dev.%s" % (a, c, c))
             pr[0] = "dev." + c
             pr.append(["dev", c])
     # selected stream key columns stay top-level columns of the row; the join keys move into dev (with decoy values on top level)
@@ -66,7 +66,7 @@ def mk0(rng, quick):
         a = alias[name]
         joins.append({"name": name, "kind": kind, "on": [[c, c] for c in scols], "tcols": [{"al": a + "loc", "c": "loc"}, {"al": a + "n", "c": "n"}], "_scols": scols, "_keyt": keyt})
         tables.append({"name": name, "rows": trows})
-        frm += " %sJOIN %s %s ON %s" % ("LEFT " if kind == "left" else "", name, a, " AND ".join("%s = %s.%s" % (c, a, c) for c in scols))
+        frm += " %sJOIN %s %s ON %s" % ("LEFT " if kind == "left" else "", name, a, " AND ".join(("%s = %s.%s" % (c, a, c)) if rng.random() < 0.7 else ("%s.%s = %s" % (a, c, c)) for c in scols))      # the table's column on either side of "="
         sel += ["%s.loc AS %sloc" % (a, a), "%s.n AS %sn" % (a, a)]
     where, wtxt = None, ""
     if rng.random() < 0.25:
